@@ -11,6 +11,7 @@ import Lean.Data.Json.Parser
 import UnicLocale.Spec.Grammar
 import UnicLocale.Spec.Locale
 import UnicLocale.Spec.Likely
+import UnicLocale.Spec.AbsOps
 import UnicLocale.Gen.Tables
 import UnicLocale.Gen.Cldr
 
@@ -331,6 +332,43 @@ def ansMac (kind : String) (lits : List Bytes) : String :=
   | "locales", ls => macOut (fun xs => " , ".intercalate (xs.map renderLoc)) (Macros.list Macros.locale ls)
   | _, _ => "bad"
 
+/-! the reference model of C10 (`Spec/AbsOps.lean`: sorted sets, a sorted multiset, ordered maps), started
+    from the C03 oracle's reading of the initial string, with the CLDR dictionary as likely-subtags data -/
+
+def cldrLikely : Spec.LikelyFns :=
+  ⟨fun l s r => .ok (Spec.maximize cldrFind l s r), fun l s r => .ok (Spec.minimize cldrFind l s r)⟩
+
+def absOfLocV (v : Spec.LocV) : Spec.AbsLoc :=
+  { language := v.id.language, script := v.id.script, region := v.id.region, variants := v.id.variants,
+    attrs := v.attrs, keywords := v.keywords, tlang := v.tlang, tfields := v.tfields, tags := v.tags }
+
+def specHistLoop (a : Spec.AbsLoc) (acc : String) : List String → String
+  | [] => acc
+  | o :: os =>
+    match parseOp o with
+    | none => acc ++ " # na"
+    | some op =>
+      let (b, out) := Spec.absStep cldrLikely a op
+      specHistLoop b (acc ++ s!" # {renderOut out}@{renderLocV (Spec.toLocV b)};rp=1") os
+
+def specHist (a : List String) : Option String :=
+  match a with
+  | [] => none
+  | i :: ops =>
+    match unhexOpt i with
+    | none => none
+    | some none => some (specHistLoop {} s!"ok {renderLocV (Spec.toLocV {})}" ops)
+    | some (some v) =>
+      match Spec.zone v with
+      | .accept w => some (specHistLoop (absOfLocV w) s!"ok {renderLocV w}" ops)
+      | .either w => some (specHistLoop (absOfLocV w) s!"ok {renderLocV w}" ops)
+      | _ => none
+
+def ansHistBoth (a : List String) : String :=
+  match specHist a with
+  | some sp => ansHist a ++ "\t" ++ sp
+  | none => ansHist a
+
 def flagOf (s : String) : Bool := s == "1"
 
 def withSpec (m s : String) : String := m ++ "\t" ++ s
@@ -602,7 +640,7 @@ def answer (line : String) : String :=
           | "variant" => one (Variant.fromBytes v)
           | _ => "bad"
       | _ => "bad"
-    | "hist" => ansHist a
+    | "hist" => ansHistBoth a
     | "serto" => match arg 0 with
       | some v => ansSerTo v
       | none => "bad"
